@@ -29,7 +29,7 @@ theorem get_hmInsert (m : List (κ × ν)) (k k' : κ) (v : ν) :
     simp only [h, if_false]
     cases mTryGet m k' with
     | some v' => rfl
-    | none => simp [tryGet_cons, h', mTryGet]
+    | none => simp [h', mTryGet]
 
 theorem nodup_hmInsert (m : List (κ × ν)) (k : κ) (v : ν) (h : mNodup m) : mNodup (Prim.hmInsert m k v) := by
   rw [hmInsert_def]
